@@ -10,6 +10,11 @@ CHECKS = {
          "Trusts numpy arithmetic and the reference derivation in oracles/prox.py; real values outside the menus are not explored.",
          "5/C05"),
 }
+CHECKS["C01"] = ("exploration",
+    "bounded-exhaustive enumeration of prediction matrices x affinity menu x every way of obtaining a GEMINI, vs textbook reference (LP for Wasserstein)",
+    "Every n-tuple of prediction rows from an interior-simplex menu (lattice, near one-hot, near uniform) for small (K,n), crossed with a menu of named kernels/metrics with parameters, callables and precomputed (PSD and indefinite) matrices, is scored through the 13 registry names, the 6 classes with both ovo flags, MI, and DiscriminativeModel.score on a stub model; each value is compared with the definition computed independently (explicit sums over atoms, transport LP). Complete inside the stated bound; a wrong constant, swapped OvA/OvO branch, dropped weight or mis-mapped name is caught on the first non-trivial matrix.",
+    "Trusts scikit-learn's pairwise functions as the meaning of kernel/metric names and scipy HiGHS for the reference LP (bracketed by primal/dual bounds); real-valued inputs outside the menus are not explored.",
+    "5/C01")
 NOT_APPLICABLE = {}
 
 def main():
